@@ -100,6 +100,7 @@ class Unit:
         sc = self.sc
         ix = get_index(sc.get("crate_src", ["server/lib/src"]))
         w = Weaver(ix, self.name)
+        w.prop = self.prop
         self.weaver = w
         fn_specs = {f.get("id", f["path"]): f for f in sc.get("fn", [])}
         item_specs = {f.get("id", f["path"]): f for f in sc.get("item", [])}
